@@ -24,7 +24,7 @@ TARGETS = {
     "C07": ([H], [H]),
     "C08": ([H], [H]),
     "C09": ([H], [H]),
-    "C14": ([H], [H]),
+    "C14": ([H], [H, A64L, ARM]),
     "C10": ([H, A64L, ARM], list(extract.ALL_TARGETS)),
     "C15": ([A64L, "aarch64-apple-darwin"], [A64L, "aarch64-apple-darwin", "aarch64-pc-windows-msvc"]),
 }
